@@ -74,6 +74,16 @@ class AGen(VGen):
         n = r.choice([0, 1, 2, 2, 3])
         names = r.sample(["a", "b", "c", "d", "e"], n)
         anns = [self.gen_ann(depth - 1) for _ in range(n)]
+        if 0 < n < 5 and r.random() < 0.3:
+            # a sibling field whose annotation is an existing field's, every union / literal written the other way round
+            # (equal and hash-equal as typing objects, different as validators)
+            for an in anns:
+                m = mirror_ann(an)
+                if m is not None:
+                    names.append(r.choice([x for x in "abcde" if x not in names]))
+                    anns.append(m)
+                    n += 1
+                    break
         if k == "typeddict":
             reqs = [r.random() < 0.6 for _ in range(n)]
             style = r.choice([0, 1])
@@ -85,7 +95,10 @@ class AGen(VGen):
             dflts.append(self.default_for_ann(a))
         kind = 1 if k == "dataclass" else 2
         c = {"id": self.cid(), "kind": kind, "hashable": kind == 2, "slots": kind == 1 and r.random() < 0.15}
-        return {"a": k, "cls": c, "names": names, "anns": anns, "dflts": dflts}
+        out = {"a": k, "cls": c, "names": names, "anns": anns, "dflts": dflts}
+        if kind == 1 and n and not c["slots"] and r.random() < 0.25:
+            out["inherit"] = r.randint(1, n)       # the first `inherit` fields are declared by a base dataclass and inherited
+        return out
 
     def gen_literal(self) -> dict:
         r = self.rng
@@ -200,8 +213,18 @@ def dedup_literals(vs: List[dict]) -> List[dict]:
 # real annotation objects
 
 
+def _fresh(x: Any = None) -> Any:
+    """typing caches parametrisations by *equality* of the arguments, and Union[a, b] == Union[b, a]: within one class,
+    Required[Union[None, bytes]] written after Required[Union[bytes, None]] would come back as the earlier object, i.e.
+    not the annotation the description says.  Clearing before every parametrisation keeps each as written."""
+    for _f in getattr(typing, "_cleanups", []):
+        _f()
+    return x
+
+
 def build_ann(ctx: wire.Ctx, a: dict, rng: random.Random) -> Any:
     k = a["a"]
+    _fresh()
     if k in PY_SCALAR:
         return PY_SCALAR[k]
     if k == "any":
@@ -275,7 +298,13 @@ def build_ann(ctx: wire.Ctx, a: dict, rng: random.Random) -> Any:
                     specs.append((n, an, dataclasses.field(default_factory=lambda d=d: wire.mk_value(ctx, d))))
                 else:
                     specs.append((n, an, dataclasses.field(default=dv)))
-        cls: Any = dataclasses.make_dataclass(name, specs, slots=a["cls"]["slots"])
+        nb = a.get("inherit", 0)
+        if nb:
+            base = dataclasses.make_dataclass(name + "Base", specs[:nb])
+            ctx.keep.append(base)
+            cls: Any = dataclasses.make_dataclass(name, specs[nb:], bases=(base,))
+        else:
+            cls = dataclasses.make_dataclass(name, specs, slots=a["cls"]["slots"])
     elif k == "namedtuple":
         env: Dict[str, Any] = {"NamedTuple": typing.NamedTuple}
         lines = []
@@ -291,10 +320,10 @@ def build_ann(ctx: wire.Ctx, a: dict, rng: random.Random) -> Any:
         cls = ns[name]
     else:
         if a.get("style", 0) == 0:
-            ta = {n: (an if r else typing.NotRequired[an]) for n, an, r in zip(a["names"], anns, a["reqs"])}
+            ta = {n: (an if r else _fresh(typing.NotRequired)[an]) for n, an, r in zip(a["names"], anns, a["reqs"])}
             cls = typing.TypedDict(name, ta)  # type: ignore
         else:
-            ta = {n: (typing.Required[an] if r else an) for n, an, r in zip(a["names"], anns, a["reqs"])}
+            ta = {n: (_fresh(typing.Required)[an] if r else an) for n, an, r in zip(a["names"], anns, a["reqs"])}
             cls = typing.TypedDict(name, ta, total=False)  # type: ignore
     ctx.cls_by_id[cid] = cls
     ctx.cls_desc[id(cls)] = wire.cls_key(a["cls"])
@@ -304,7 +333,7 @@ def build_ann(ctx: wire.Ctx, a: dict, rng: random.Random) -> Any:
 
 def strip_priv(a: Any) -> Any:
     if isinstance(a, dict):
-        return {k: strip_priv(v) for k, v in a.items() if not k.startswith("_") and k not in ("bar", "style")}
+        return {k: strip_priv(v) for k, v in a.items() if not k.startswith("_") and k not in ("bar", "style", "inherit")}
     if isinstance(a, list):
         return [strip_priv(x) for x in a]
     return a
@@ -579,8 +608,9 @@ def shard(seed: int, shard_i: int, n: int, opts: dict) -> dict:
     evaluated = 0
     pending: List[Tuple[dict, Any, Any, List[Any], dict]] = []
     reqs: List[dict] = []
-    for _ in range(n):
-        c = gen_case(g, opts)
+    given = opts.get("cases")
+    for i in range(len(given) if given is not None else n):
+        c = given[i] if given is not None else gen_case(g, opts)
         wire.set_classes(c["classes"])
         unb, _, _, obs = run_case(c, rng)
         if unb:
@@ -604,6 +634,8 @@ def shard(seed: int, shard_i: int, n: int, opts: dict) -> dict:
         if first is not None and "v" in first:
             register(ctx, v, first["v"], problems)
         h0 = engine.case_hash(adesc)
+        for p in union_order_problems(ctx, c, v)[:1]:
+            failures.append({"property": "C07", "case": c, "xd": None, "what": p, "real": None})
         for p in problems[:1]:
             disagreements.append({"case": c, "fields": ["derived-structure"], "real": p, "xd": None})
         for x in xs:
@@ -681,6 +713,49 @@ def shard(seed: int, shard_i: int, n: int, opts: dict) -> dict:
     return {"evaluated": evaluated, "stats": dict(stats), "failures": failures[:30], "n_failures": len(failures),
             "disagreements": disagreements[:10], "n_disagreements": len(disagreements),
             "distinct": list(distinct), "nontrivial": list(nontrivial), "samples": samples}
+
+
+def union_order_problems(ctx: wire.Ctx, case: dict, v: Any) -> List[str]:
+    """model-free: where the annotation (at the top, in a record field, in a list item) is a Union written m1, ..., mk,
+    the validator derived there tries, in this order, what the same resolver derives from m1, ..., mk on their own"""
+    from koda_validate import ListValidator, UnionValidator
+    from koda_validate.signature import resolve_signature_typehint_default
+    from koda_validate.typehints import get_typehint_validator
+    resolver = get_typehint_validator if case["resolver"] == "default" else resolve_signature_typehint_default
+    out: List[str] = []
+
+    def go(a: dict, w: Any, path: str) -> None:
+        k = a.get("a")
+        if k == "union" and isinstance(w, UnionValidator) and len(w.validators) == len(a["xs"]):
+            for i, m in enumerate(a["xs"]):
+                if has_annotated(m):
+                    continue
+                try:
+                    alone = resolver(build_ann(ctx, m, random.Random(0)))
+                    if not bool(alone == resolver(build_ann(ctx, m, random.Random(0)))):
+                        continue    # two derivations from this member do not even compare equal to each other (a
+                        #             per-derivation closure inside): `==` cannot be used to recognise it
+                    same = bool(w.validators[i] == alone)
+                except Exception:  # noqa
+                    continue
+                if not same:
+                    out.append(f"{path or 'root'}: member {i} of the validator derived for the union is not what member {i} of "
+                               f"the annotation ({json.dumps(strip_priv(m))[:80]}) derives on its own: {w.validators[i]!r:.120}")
+                    return
+        elif k in ("dataclass", "namedtuple", "typeddict") and isinstance(getattr(w, "schema", None), dict):
+            for nm, an in zip(a["names"], a["anns"]):
+                if nm in w.schema:
+                    go(an, w.schema[nm], f"{path}.{nm}")
+        elif k == "list" and isinstance(w, ListValidator):
+            go(a["x"], w.item_validator, path + "[]")
+    go(case["ann"], v, "")
+    return out
+
+
+def replay_case(case: dict) -> List[str]:
+    r = shard(0, 0, 1, {"cases": [case]})
+    return [f["what"] for f in r["failures"]] + \
+           [f"model and implementation differ on {d.get('fields')}" for d in r["disagreements"]]
 
 
 def _converts(b: Any) -> bool:
